@@ -1167,7 +1167,7 @@ def c17_library(seed, n):
         else:
             proc = AnnotateResidues(attribute='aasecstruct', sequence=seq, molecule_selector=selectors.is_protein)
         reuse, reuse_seq = proc, seq
-        oracle.begin_annotate_residues(proc, system)
+        oracle.begin_annotate_residues(proc, system, sequence=seq)
         raised = None
         try:
             proc.run_system(system)
